@@ -52,6 +52,52 @@ fn main() {
     let runs = args.u64("runs", 4);
     let steps = args.u64("steps", 300);
     let race = args.has("race");
+    if let Some(k) = args.map.get("cut").map(|x| x.parse::<usize>().unwrap()) {
+        // E. a file with a recovery pending (the process died) that was then cut short by k pages from outside
+        let cfg = Config::small(seed);
+        let store = Store::new();
+        let db = builder(&cfg).create_with_backend(store.backend()).unwrap();
+        for c in 0..3u64 {
+            let w = db.begin_write().unwrap();
+            {
+                let mut t = w.open_table(T).unwrap();
+                for i in 0..60u64 {
+                    t.insert(i, vec![(c + i) as u8; 150].as_slice()).unwrap();
+                }
+            }
+            w.commit().unwrap();
+        }
+        let mut image = store.bytes();
+        std::mem::forget(db);
+        // the highest page the two commit points use: the cut goes k pages below its end
+        let opts = redb_decoder::Options { page_size: 0 };
+        let mut top = 0usize;
+        for slot in 0..2 {
+            let dec = redb_decoder::decode_slot(&image, &opts, slot).expect("HARNESS: decode");
+            for [_, index, order] in redb_decoder::allocated_pages(&dec) {
+                top = top.max(cfg.page_size + ((index as usize + 1) << order) * cfg.page_size);
+            }
+        }
+        let new_len = top - k * cfg.page_size;
+        image.truncate(new_len);
+        let mut tw = TraceWriter::create(&args.str("out", "contract-cut.ndjson"));
+        let store = Store::from_bytes(image);
+        store.enable_calllog();
+        let r = std::panic::catch_unwind(std::panic::AssertUnwindSafe(|| builder(&cfg).create_with_backend(store.backend()).map(|db| drop(db))));
+        let outcome = match &r {
+            Ok(Ok(())) => "opened".to_string(),
+            Ok(Err(e)) => format!("error: {e}"),
+            Err(_) => "panic".to_string(),
+        };
+        let name = "dirty-file-cut";
+        tw.write(&json!({"e": "note", "sc": name, "outcome": outcome, "k": k, "len": new_len}));
+        store.mark_done();
+        let mut calls = 0u64;
+        flush_calls(&store, &mut tw, name, &mut calls);
+        tw.finish();
+        println!("{}", json!({"scenarios": 1, "failing_opens": 1, "backend_calls": calls, "outcome": outcome}));
+        return;
+    }
     let mut tw = TraceWriter::create(&args.str("out", "contract.ndjson"));
     let mut calls = 0u64;
     let mut scenarios = 0u64;
